@@ -283,22 +283,22 @@ class Point(object):
 
         """
 
-        # If the attribute value is not None, then simply return it.
-        # Otherwise, compute it and return it.
-        if self._value is None:
-            # If leaf, the PEP would have filled the attribute after solving the problem.
-            if self._is_leaf:
+        # If leaf, the PEP fills the attribute when the problem is solved.
+        if self._is_leaf:
+            if self._value is None:
                 raise ValueError("The PEP must be solved to evaluate Points!")
-            # If linear combination, combine the values of the leaf, and store the result before returning it.
-            else:
-                # Accumulate from the values of the leaf points (they all share the dimension found at solve time,
-                # which may be smaller than Point.counter if new points were created since then).
-                value = 0
-                for point, weight in self.decomposition_dict.items():
-                    value = value + weight * point.eval()
-                if len(self.decomposition_dict) == 0:
-                    value = np.zeros(Point.counter)
-                self._value = value
+        # If linear combination, combine the current values of the leaf points.
+        # The combination is recomputed at each call (and stored),
+        # so that the returned value always corresponds to the latest solution.
+        else:
+            # Accumulate from the values of the leaf points (they all share the dimension found at solve time,
+            # which may be smaller than Point.counter if new points were created since then).
+            value = 0
+            for point, weight in self.decomposition_dict.items():
+                value = value + weight * point.eval()
+            if len(self.decomposition_dict) == 0:
+                value = np.zeros(Point.counter)
+            self._value = value
 
         return self._value
 
